@@ -10,7 +10,7 @@ COMMON_NOTE = ("Trusted: Coq 8.16.1 kernel incl. vm_compute (no native_compute, 
 # id -> (technique, level text, design ref, claimed?)
 T = {
  'C01': ("Coq invariant proof over operation histories (heap model of BaseNode/Node) + vm_compute correspondence on generated histories",
-         "Theorems: the forest invariant WF (link symmetry, NoDup, bounds, acyclicity by ghost rank) holds in every state reachable by any operation list incl. invalid arguments and failing hooks; closed-form effect theorems for parent/children/del/sort; rejection theorems. Tie to the code: every run executes ~1400 random histories on the real classes and compares each step with the model inside coqc."),
+         "Theorems: the forest invariant WF (link symmetry, NoDup, bounds, acyclicity by ghost rank) holds in every state reachable by any operation list incl. invalid arguments and failing hooks; closed-form effect theorems for parent/children/del/sort; rejection theorems; every accepted parent assignment is the documented rose-tree edit (subtree cut out and grafted as last child of the new parent), children assignment a sequence of them, sort a permutation of child subtrees (Props/C01_surgery.v). Tie to the code: every run executes ~1400 random histories on the real classes and compares each step with the model inside coqc."),
  'C02': ("Coq atomicity proof (rollback exactness, restore_sorted lemma) for BaseNode/Node, BinaryNode, DAGNode heap models + fault-injection correspondence",
          "Theorems: any assignment that does not return normally leaves all links pointwise identical (all fault points: guards, duplicate name, pre/post hook); the except-branches are proved to undo the try-branches exactly. Tie: histories with 40% failing operations through the documented hook extension points on all four classes."),
  'C03': ("Coq invariant + path/lookup theorems on the Node heap model + vm_compute correspondence (path_name, sep, depth, find_full_path)",
@@ -21,7 +21,7 @@ T = {
 GENERIC = {
  'C04': ("Coq functional-correctness proofs of the seven iterators against a route/level specification + vm_compute correspondence", "DESIGN.md 7/C04"),
  'C05': ("Coq proofs about the path-constructor model (prefix closure, reuse, order) + vm_compute correspondence over list/dict/DataFrame/polars entry points", "DESIGN.md 7/C05"),
- 'C06': ("Coq export/import round-trip proofs (dict, nested dict, frames, Newick, printed tree) + vm_compute correspondence", "DESIGN.md 7/C06"),
+ 'C06': ("Coq export/import round-trip proofs (dict, nested dict, frames, Newick, printed tree) + vm_compute correspondence + translator tie (Newick control characters regenerated from bigtree/utils/constants.py and checked against the model's reader and writer on every run)", "DESIGN.md 7/C06"),
  'C07': ("Coq effect-skeleton proofs on the heap model (copy freshness, frame, independence) with refinement theorems tying the skeletons to the algorithm models + runtime snapshot correspondence", "DESIGN.md 7/C07"),
  'C08': ("Coq proofs about the shift/copy/replace model (decision table, multi-pair refinement) + vm_compute correspondence over flag combinations", "DESIGN.md 7/C08"),
  'C09': ("Coq soundness/completeness proofs of the search model + vm_compute correspondence", "DESIGN.md 7/C09"),
